@@ -207,6 +207,49 @@ static void check_valid(vf::Ctx& c, const U32& cps)
 		String froma(wa);
 		if (!same(froma, u8)) FAILF("valid.String(Array<wchar_t>)", "got %s (length %d), reference %s", hx(froma).c_str(), froma.length(), vf::hex(u8).c_str());
 	}
+	if (k >= 2) {   // a binding limit: only the first n characters are converted, into blocks of exactly the size n characters can need
+		int lims[3] = {1, k / 2, k - 1};
+		for (int li = 0; li < 3; li++) {
+			int n = lims[li];
+			if (n < 1 || (li > 0 && n == lims[li - 1])) continue;
+			U32 head(cps.begin(), cps.begin() + n);
+			const std::string h8 = enc8s(head);
+			const U16 h16 = enc16s(head);
+			{
+				CStr in(u8);
+				Buf w((2 * n + 1) * sizeof(wchar_t));
+				int r = utf8toUtf16(in.p(), w.w(), n);
+				bool ok = r == (int)h16.size() && w.w()[r] == 0;
+				for (int i = 0; ok && i < r; i++) ok = (uint32_t)w.w()[i] == h16[i];
+				if (!ok) FAILF("valid.limit.utf8toUtf16", "limit %d of %d characters: returned %d units, the first %d characters need %d", n, k, r, n, (int)h16.size());
+			}
+			{
+				CStr in(u8);
+				Buf out((n + 1) * sizeof(int));
+				int r = utf8toUtf32(in.p(), out.i(), n);
+				bool ok = r == n && out.i()[n] == 0;
+				for (int i = 0; ok && i < n; i++) ok = (uint32_t)out.i()[i] == cps[i];
+				if (!ok) FAILF("valid.limit.utf8toUtf32", "limit %d of %d characters: returned %d", n, k, r);
+			}
+			{
+				Buf in((nu + 1) * sizeof(wchar_t));
+				for (int i = 0; i < nu; i++) in.w()[i] = (wchar_t)u16[i];
+				in.w()[nu] = 0;
+				Buf out(4 * n + 1);
+				int r = utf16toUtf8(in.w(), out.c(), n);
+				if (r != (int)h8.size() || memcmp(out.p, h8.c_str(), h8.size() + 1) != 0) FAILF("valid.limit.utf16toUtf8", "limit %d of %d characters: returned %d bytes, the first %d characters need %d", n, k, r, n, (int)h8.size());
+			}
+			{
+				Buf in((k + 1) * sizeof(int));
+				for (int i = 0; i < k; i++) in.i()[i] = (int)cps[i];
+				in.i()[k] = 0;
+				Buf out(4 * n + 1);
+				int r = utf32toUtf8(in.i(), out.c(), n);
+				if (r != (int)h8.size() || memcmp(out.p, h8.c_str(), h8.size() + 1) != 0) FAILF("valid.limit.utf32toUtf8", "limit %d of %d characters: returned %d bytes, the first %d characters need %d", n, k, r, n, (int)h8.size());
+			}
+			c.count("valid.binding-limit-conversions", 4);
+		}
+	}
 	{   // fromCodes / fromCode
 		Array<int> codes(k);
 		for (int i = 0; i < k; i++) codes[i] = (int)cps[i];
